@@ -349,6 +349,11 @@ func (c *Ctx) Finish() int {
 		fmt.Printf("MACHINERY-ERROR property=%s known_findings.json: %v\n", c.Prop, err)
 		return 2
 	}
+	if old, _ := filepath.Glob(filepath.Join(c.outDir("replays"), c.Prop+"-*.json")); c.ReplayArg == "" {
+		for _, f := range old {
+			os.Remove(f)
+		}
+	}
 	keys := make([]string, 0, len(d.Violations))
 	for k := range d.Violations {
 		keys = append(keys, k)
